@@ -249,8 +249,29 @@ def interesting(t, defs, req, sizes=CONTAINER_SIZES, strlens=STRLENS):
             out.append(c)
         return out
     if k == "struct":
-        return [base_value(t, defs, 2, 5)]
+        # a full nested value, and a sparse one (every optional / nil-able member absent): decoded over a fuller
+        # destination, nothing of the old nested value may remain
+        return [base_value(t, defs, 2, 5), zero_struct(t["s"], defs)]
     raise ValueError(k)
+
+
+def lengthen(t, v, n, defs, depth=3):
+    """the same value with every string / binary inside it (elements, keys, values, nested) at least n bytes long"""
+    if t.get("ptr"):
+        return v if v.get("p") == 0 else {"p": 1, "v": lengthen(dict(t, ptr=False), v["v"], n, defs, depth)}
+    k = t["k"]
+    if k == "string":
+        return v + [97 + (i % 26) for i in range(max(0, n - len(v)))]
+    if k == "binary":
+        return v if v.get("nil") else {"nil": False, "b": v["b"] + [65 + (i % 26) for i in range(max(0, n - len(v["b"])))]}
+    if k in ("list", "set"):
+        return dict(v, items=[lengthen(t["e"], x, n, defs, depth) for x in v["items"]])
+    if k == "map":
+        return dict(v, ents=[[lengthen(t["kt"], a, n, defs, depth), lengthen(t["vt"], b, n, defs, depth)] for a, b in v["ents"]])
+    if k == "struct" and depth > 0:
+        byk = {f["key"]: f for f in defs[t["s"]]["fields"]}
+        return {"f": {key: lengthen(byk[key]["t"], x, n, defs, depth - 1) for key, x in v["f"].items()}, "unk": v["unk"]}
+    return v
 
 
 def zero_elem(t, defs):
@@ -495,6 +516,24 @@ def universe_fields():
     dl[2]["def"] = list(b"tail")
     dl[3]["def"] = [0] * 7 + [1]
     defs["DefLast"] = struct(dl, init=True)
+    # nocopy fields with non-empty declared defaults: an empty value in the message overrides the default
+    nc = [field(1, "default", T("string"), nocopy=True), field(2, "optional", T("string"), nocopy=True), field(3, "required", T("string"), nocopy=True),
+          field(4, "default", T("binary"), nocopy=True), field(5, "optional", T("string", True), nocopy=True), field(6, "default", T("string"))]
+    nc[0]["def"] = list(b"eu-west")
+    nc[1]["def"] = list(b"n/a")
+    nc[2]["def"] = list(b"rq")
+    nc[3]["def"] = {"nil": False, "b": [7, 7, 7]}
+    nc[5]["def"] = list(b"plain")
+    defs["DefNc"] = struct(nc, init=True)
+    defs["DefNcN"] = struct([field(1, "default", ST("DefNc", True)), field(2, "default", L(ST("DefNc", True))),
+                             field(3, "default", M(T("string"), ST("DefNc", False))), field(4, "default", ST("DefNc", False))])
+    # Go's int kind: plain int is i64; a named int under its own name is an enum (i32 on the wire), under the keyword an i64
+    gi = lambda ptr=False: dict(T("i64", ptr), gotype="*int" if ptr else "int")
+    ge = lambda ptr=False: dict(T("enum", ptr), gotype="*EnumI" if ptr else "EnumI", ann="EnumI")
+    defs["GoInt"] = struct([field(1, "default", gi()), field(2, "optional", gi(True)), field(3, "default", ge()), field(4, "optional", ge(True)),
+                            field(5, "default", L(ge())), field(6, "default", M(ge(), gi())), field(7, "required", ge()),
+                            field(8, "default", dict(T("enum"), gotype="MyInt", ann="MyInt")), field(9, "default", dict(T("i64"), gotype="MyInt", ann="i64")),
+                            field(10, "default", SET(gi())), field(11, "default", M(T("string"), ge()))])
     # field ids on both sides of presence-set word boundaries
     ids = [0, 1, 63, 64, 65, 127, 128, 255, 256, 1023, 1024, 32767, 32768, 65534]
     defs["Ids"] = struct([field(x, ["required", "default", "optional"][j % 3],
@@ -508,6 +547,11 @@ def universe_fields():
     # optional structs held by value (always written: there is no nil to test)
     defs["OptVal"] = struct([field(1, "optional", ST("Leaf", False)), field(2, "optional", ST("Fix", False)),
                              field(3, "optional", ST("LeafReq", False)), field(4, "default", T("i8"))])
+    # pointer-shaped structs nested by value in pointer-shaped structs (also stored directly in an interface value)
+    defs["WrapPtr"] = struct([field(1, "default", ST("OnePtr", False))])
+    defs["WrapMap"] = struct([field(1, "default", ST("OneMap", False))])
+    defs["WrapOptPtr"] = struct([field(1, "optional", ST("OneOptPtr", False))])
+    defs["WrapWrap"] = struct([field(7, "default", ST("WrapPtr", False))])
     # single-field structs (Go stores a one-word struct directly in an interface value)
     defs["OnePtr"] = struct([field(1, "default", ST("Leaf", True))])
     defs["OneMap"] = struct([field(1, "default", M(T("string"), T("i32")))])
